@@ -6,6 +6,7 @@ import (
 	"fmt"
 
 	"go.lstv.dev/util/size"
+	"verif/libdefaults"
 	"verif/mc"
 	"verif/oracle"
 )
@@ -24,12 +25,7 @@ type box struct {
 }
 
 func reset() {
-	size.Formatter = size.DefaultFormatter
-	size.Parser = size.DefaultParser[[]byte]
-	size.DisableMarshalTextUnit, size.DisableMarshalJSONStringForm, size.DisableMarshalJSONObjectForm = false, false, false
-	size.DefaultRule = size.RuleEnableJSONStringForm | size.RuleEnableJSONObjectForm
-	size.MaxInputLength = 128
-	size.MaxObjectKeys = 16
+	libdefaults.Size()
 }
 
 func setup(a arg) {
